@@ -7,6 +7,7 @@
 #include "engine/boards.hpp"
 #include "checks/gp_scopes.hpp"
 #include "checks/wellformed.hpp"
+#include "checks/cells_family.hpp"
 
 using namespace vf;
 
@@ -131,37 +132,6 @@ static std::vector<Path> ring_shapes(int n) {
   return v;
 }
 
-// ---------------------------------------------------------------- cells family
-// a closed ring of cells round a w x h grid plus a subset (code) of the interior cells, given as rectangles in one of six
-// decompositions (0 unit cells / 1 maximal row runs / 2 maximal column runs / 3 ring as four bars + interior row runs / 4, 5 overlapping row AND column runs): all
-// contacts are edge or corner contacts, i.e. polygons merged and holes closed through horizontal joins, islands in holes
-static Path cell_rect(int x0, int y0, int x1, int y1) { const i64 st = 4; return Path{{x0 * st, y0 * st}, {x1 * st, y0 * st}, {x1 * st, y1 * st}, {x0 * st, y1 * st}}; }
-static Paths cells_shape(int w, int h, u64 code, int decomp) {
-  int iw = w - 2, nin = iw * (h - 2);
-  std::vector<std::vector<char>> g(h, std::vector<char>(w, 0));
-  for (int y = 0; y < h; ++y) for (int x = 0; x < w; ++x) if (x == 0 || y == 0 || x == w - 1 || y == h - 1) g[y][x] = 1;
-  for (int k = 0; k < nin; ++k) if (code >> k & 1) g[1 + k / iw][1 + k % iw] = 1;
-  Paths S; auto R = cell_rect;
-  if (decomp == 0) { for (int y = 0; y < h; ++y) for (int x = 0; x < w; ++x) if (g[y][x]) S.push_back(R(x, y, x + 1, y + 1)); }
-  else if (decomp == 1) { for (int y = 0; y < h; ++y) for (int x = 0; x < w;) { if (!g[y][x]) { ++x; continue; } int x1 = x; while (x1 < w && g[y][x1]) ++x1; S.push_back(R(x, y, x1, y + 1)); x = x1; } }
-  else if (decomp == 2) { for (int x = 0; x < w; ++x) for (int y = 0; y < h;) { if (!g[y][x]) { ++y; continue; } int y1 = y; while (y1 < h && g[y1][x]) ++y1; S.push_back(R(x, y, x + 1, y1)); y = y1; } }
-  else if (decomp == 3) { S.push_back(R(0, 0, w, 1)); S.push_back(R(0, h - 1, w, h)); S.push_back(R(0, 1, 1, h - 1)); S.push_back(R(w - 1, 1, w, h - 1));
-    for (int y = 1; y < h - 1; ++y) for (int x = 1; x < w - 1;) { if (!g[y][x]) { ++x; continue; } int x1 = x; while (x1 < w - 1 && g[y][x1]) ++x1; S.push_back(R(x, y, x1, y + 1)); x = x1; } }
-  else if (decomp >= 6) {
-    // 6..9: interior unit cells + a frame of four CROSSING bars drawn one cell outside the grid coordinates used above (the ring row/column
-    // itself): "hash" frames (all bars protrude one cell at both ends: 6 cells first, 7 bars first) and "pinwheel" frames (each bar protrudes
-    // at one end and abuts the next bar at the other: 8 cells first, 9 bars first)
-    Paths cellsP, bars;
-    for (int y = 1; y < h - 1; ++y) for (int x = 1; x < w - 1; ++x) if (g[y][x]) cellsP.push_back(R(x, y, x + 1, y + 1));
-    if (decomp <= 7) { bars = {R(-1, 0, w + 1, 1), R(-1, h - 1, w + 1, h), R(0, -1, 1, h + 1), R(w - 1, -1, w, h + 1)}; }
-    else { bars = {R(-1, 0, w - 1, 1), R(w - 1, -1, w, h - 1), R(1, h - 1, w + 1, h), R(0, 1, 1, h + 1)}; }
-    if (decomp % 2 == 0) { S = cellsP; S.insert(S.end(), bars.begin(), bars.end()); } else { S = bars; S.insert(S.end(), cellsP.begin(), cellsP.end()); }
-  }
-  else {  // 4 / 5: OVERLAPPING bars: every maximal row run AND every maximal column run (each cell covered twice), rows first (4) or columns first (5)
-    Paths rows = cells_shape(w, h, code, 1), cols = cells_shape(w, h, code, 2);
-    S = decomp == 4 ? rows : cols; const Paths& other = decomp == 4 ? cols : rows; S.insert(S.end(), other.begin(), other.end()); }
-  return S;
-}
 static void check_input(Ctx& cx, const Paths& S, const Paths& C, const Paths& O, bool verbose, int only_ct, int only_fr, const std::string& only_api);
 // variant: 0 Union/NonZero of the rectangles, 1 Xor/NonZero with the interior square as clip, 2 Difference/EvenOdd with the full square as clip
 static void cells_case(Ctx& cx, int w, int h, u64 code, int decomp, int variant, bool verbose) {
@@ -174,12 +144,13 @@ static void cells_case(Ctx& cx, int w, int h, u64 code, int decomp, int variant,
   cx.key_prefix.clear();
 }
 static void cells_scope(Ctx& cx, const Args& a, Reporter& rep) {
-  int w = (int)a.opti("w", 6), h = (int)a.opti("h", 6); int nin = (w - 2) * (h - 2);
+  int w = (int)a.opti("w", 6), h = (int)a.opti("h", 6); int nin = (w - 2) * (h - 2), iw = w - 2; bool frames = a.opti("frames", 0) != 0;
   u64 total = (u64)1 << nin; bool done = true;
   for (u64 code = 0; code < total; ++code) {
     if (!rep.mine(code)) continue;
     if ((code & 255) == 0 && rep.out_of_time()) { done = false; break; }
-    for (int decomp = 0; decomp < 10; ++decomp) {
+    if (frames) { for (int cc = 0; cc < 81; ++cc) { cells_case(cx, w, h, code, 10 + cc, 0, false); if (code & (code >> iw)) cells_case(cx, w, h, code, 100 + cc, 0, false); } }   // column runs differ from unit cells only when two interior cells are stacked
+    else for (int decomp = 0; decomp < 10; ++decomp) {
       cells_case(cx, w, h, code, decomp, 0, false);
       if (decomp == 1) cells_case(cx, w, h, code, decomp, 1, false);
       if (decomp == 0) cells_case(cx, w, h, code, decomp, 2, false);
@@ -187,7 +158,7 @@ static void cells_scope(Ctx& cx, const Args& a, Reporter& rep) {
     rep.add("inputs", 4);
     if (code % 4099 == 1) rep.sample("cells " + std::to_string(w) + "x" + std::to_string(h) + " interior code " + std::to_string(code) + ": " + pstr(cells_shape(w, h, code, 1)));
   }
-  if (done) rep.bounds_completed.push_back("cells " + std::to_string(w) + "x" + std::to_string(h) + ": all 2^" + std::to_string(nin) + " interior subsets x 10 decompositions");
+  if (done) rep.bounds_completed.push_back("cells " + std::to_string(w) + "x" + std::to_string(h) + ": all 2^" + std::to_string(nin) + " interior subsets x " + (frames ? "81 four-bar frames (each corner owned by both bars / the horizontal / the vertical one) x interior as unit cells and as column runs" : "10 decompositions"));
 }
 
 int main(int argc, char** argv) {
@@ -206,7 +177,7 @@ int main(int argc, char** argv) {
     return rep.nviol ? 1 : 0;
   }
   std::string scope = a.opt("scope", "S1");
-  if (scope == "S1" || scope == "S2") {
+  if (scope == "S0" || scope == "S1" || scope == "S2") {
     auto PO = board_PO(a.seed);
     Paths open1 = {{PO[0], PO[1], PO[2]}};
     for_each_gp(a, rep, [&](const GpInput& in) { check_input(cx, in.subj, in.clip, Paths()); rep.sample("S=" + pstr(in.subj) + " C=" + pstr(in.clip)); });
